@@ -287,39 +287,46 @@ class SpecTheory(object):
         return fn
 
     def unfoldings(self, formulas, fuel=1):
-        """definitional instances  F(args) == body[params := args]  for every ground application of a
-        recursive spec function occurring in `formulas` (and, with fuel > 1, in the instances themselves).
-        The spec functions are uninterpreted for the solver; these instances are the only thing it knows
-        about them (plus proved ghost lemmas).  Measured: z3's own define-fun-rec unfolding goes `unknown`
-        on the same VCs that are instant with one explicit level."""
+        """definitional instances  F(args) == body[params := args]  for every application of a recursive spec function
+        occurring in `formulas` (ground, or quantified over arguments that are exactly a bound variable), plus the
+        pointwise definition of every array-valued (macro) spec function application.
+        The spec functions are uninterpreted for the solver; these instances are the only thing it knows about them
+        (plus proved ghost lemmas).  Measured: z3's own define-fun-rec unfolding goes `unknown` on the same VCs that are
+        instant with one explicit level.
+        Depth accounting: applications in the input have depth 0; the result of a recursive unfolding has depth + 1 and is
+        only scanned again while depth < fuel; macro expansions are free (same depth as the application)."""
         by_decl = {d.get_id(): (n, d) for n, d in self.decls.items()}
         seen_terms = {}
         hv = {}
         keep = list(formulas)     # keeps every visited ast alive so that ids stay unique
         out = []
-        frontier = list(formulas)
-        for level in range(fuel):
+        frontier = [(f, 0) for f in formulas]
+        rounds = 0
+        while frontier and rounds < fuel + 8:
+            rounds += 1
             apps = {}
             visited = set()
 
-            def walk(e, depth_bound):
+            def walk(e, d):
                 i = e.get_id()
                 if i in visited:
                     return
                 visited.add(i)
                 if z3.is_quantifier(e):
-                    walk(e.body(), True)
+                    walk(e.body(), d)
                     return
                 if z3.is_app(e):
                     if e.decl().get_id() in by_decl and i not in seen_terms:
-                        apps[i] = e
+                        apps[i] = (e, d)
                     for c in e.children():
-                        walk(c, depth_bound)
-            for f in frontier:
-                walk(f, False)
-            new = []
-            for i, e in apps.items():
+                        walk(c, d)
+            for f, d in frontier:
+                if d < fuel:
+                    walk(f, d)
+            nxt = []
+            for i, (e, d) in apps.items():
                 seen_terms[i] = e
+                keep.append(e)
                 name = by_decl[e.decl().get_id()][0]
                 args = e.children()
                 if name in self.macros:
@@ -333,22 +340,25 @@ class SpecTheory(object):
                             q = fresh('u', I)
                             app = e.decl()(*gs_)
                             inst = z3.substitute(elt, *([(c, g) for c, g in zip(consts, gs_)] + [(cv, q)]))
-                            out.append(z3.ForAll(gs_ + [q], z3.Select(app, q) == inst, patterns=[z3.Select(app, q)]))
+                            ax = z3.ForAll(gs_ + [q], z3.Select(app, q) == inst, patterns=[z3.Select(app, q)])
+                            out.append(ax)
+                            nxt.append((ax, d))
                         continue
                     consts, cv, elt = self.macros[name]
                     q = fresh('u', I)
                     inst = z3.substitute(elt, *([(c, a) for c, a in zip(consts, args)] + [(cv, q)]))
                     try:
-                        out.append(z3.ForAll([q], z3.Select(e, q) == inst, patterns=[z3.Select(e, q)]))
+                        ax = z3.ForAll([q], z3.Select(e, q) == inst, patterns=[z3.Select(e, q)])
                     except z3.Z3Exception:
-                        out.append(z3.ForAll([q], z3.Select(e, q) == inst))
-                    new.append(inst)
+                        ax = z3.ForAll([q], z3.Select(e, q) == inst)
+                    out.append(ax)
+                    nxt.append((ax, d))          # macro expansions are free: scanned again at the same depth
                     continue
                 consts, body = self.defs[name]
                 if not has_var(e, 0, hv):
                     inst = z3.substitute(body, *[(c, a) for c, a in zip(consts, args)])
                     out.append(e == inst)
-                    new.append(inst)
+                    nxt.append((inst, d + 1))
                     continue
                 # arguments that are exactly a bound variable are generalised (quantified definitional
                 # instance with the application as pattern); any other occurrence of a binder: give up
@@ -375,12 +385,13 @@ class SpecTheory(object):
                 app = e.decl()(*actual)
                 inst = z3.substitute(body, *[(c, a) for c, a in zip(consts, actual)])
                 try:
-                    out.append(z3.ForAll(qs, app == inst, patterns=[app]))
+                    ax = z3.ForAll(qs, app == inst, patterns=[app])
                 except z3.Z3Exception:
-                    out.append(z3.ForAll(qs, app == inst))       # e.g. an if-then-else inside the would-be pattern
-            frontier = new
-            if not new:
-                break
+                    ax = z3.ForAll(qs, app == inst)       # e.g. an if-then-else inside the would-be pattern
+                out.append(ax)
+                nxt.append((ax, d + 1))
+            frontier = nxt
+            keep.extend(f for f, _ in nxt)
         return out
 
     def call(self, name, args):
